@@ -43,7 +43,7 @@ def uw_one(n, be, items=None, n2=None, extra=None):
         "RawTableInner::resize_inner": it,
         "FullBucketsIndices::next_impl": g + 1,
         "FullBucketsIndices": g + 1,
-        "RawIterRange": g + 1,
+        "RawIterRange": g + 2,
         # fold_impl: CBMC sees its two nested loops as one (same head): groups + elements iterations
         "RawIterRange*fold_impl": g + nn + 2,
         "RawTableInner::drop_elements": it, "RawIter": it,
@@ -54,6 +54,9 @@ def uw_one(n, be, items=None, n2=None, extra=None):
         "sym::window_has_empty#0": nn + 1, "sym::window_has_empty#1": w + 1, "sym::chain_ok": g + 1,
         "sym::St": nn + 1,
     }
+    # loops of the harness bodies themselves: over N slots or the K key ids
+    for m in range(1, 21):
+        d["c%02d::" % m] = max(nn, 8) + 2
     if n2 is None:
         # no growth / rehash expected in this instance: these loops only exist on paths that are
         # infeasible for the concrete counts; keep their unwinding minimal (an unwinding assertion
@@ -95,9 +98,9 @@ def instances():
                    bounds="every group of WIDTH bytes (2^64 / 2^128), every tag; no input bound"))
     # ------------------------------------------------------------------ C06 HashTable steps
     G8, S16 = ["g8"], ["s16"]
-    def T(name, call, n, be=BOTH, tier="quick", n2=None, items=None, props=("C06",), **kw):
+    def T(name, call, n, be=BOTH, tier="quick", n2=None, items=None, props=("C06",), unwind=None, **kw):
         kw.setdefault("bounds", "N=%d buckets%s" % (n, (" -> %d" % n2) if n2 else ""))
-        L.append(I(name, list(props), call, be=be, tier=tier, unwind=max(n, n2 or 0, 8) + 2,
+        L.append(I(name, list(props), call, be=be, tier=tier, unwind=unwind or (max(n, n2 or 0, 8) + 2),
                    unwindset=uw(n, items=items, n2=n2), **kw))
     C6 = ("C06", "C02", "C18")
     T("c06_find_n4", "c06::find::<4>(SYM, SYM)", 4, props=C6, share_quick=('C18', 'C02'))
@@ -187,14 +190,15 @@ def instances():
     T("c10_retain_n8", "c10::table_retain::<8>()", 8, props=C10, covers="some")
     T("c10_retain_n16", "c10::table_retain::<16>()", 16, be=G8, props=C10, timeout=14400, tier="thorough", mem_gb=44)
     T("c10_retain_n32s", "c10::table_retain::<32>()", 32, be=S16, props=C10, tier="thorough", timeout=3600)
-    T("c10_extract_if_n4", "c10::table_extract_if::<4>()", 4, props=C10, covers="some")
+    T("c10_extract_if_n4", "c10::table_extract_if::<4>()", 4, props=C10, covers="some", be_quick=G8)
     T("c10_extract_if_n8", "c10::table_extract_if::<8>()", 8, props=C10, covers="some", tier="thorough", timeout=10800, mem_gb=40)
     T("c10_extract_if_n16", "c10::table_extract_if::<16>()", 16, be=G8, props=C10, timeout=14400, covers="some", tier="thorough", mem_gb=44)
     T("c10_map_extract_if_n4", "c10::map_extract_if::<4>()", 4, be=G8, props=C10)
     T("c10_map_extract_if_n8", "c10::map_extract_if::<8>()", 8, be=G8, props=C10, tier="thorough", timeout=10800, mem_gb=40)
     for w, wn in enumerate(("retain", "extract_if", "drain")):
         nn = 4 if w == 1 else 8
-        T("c10_set_%s_n%d" % (wn, nn), "c10::set_ops::<%d>(%d)" % (nn, w), nn, be=G8, props=("C10", "C07"), share_quick=("C07",) if w == 0 else ())
+        T("c10_set_%s_n%d" % (wn, nn), "c10::set_ops::<%d>(%d)" % (nn, w), nn, be=G8, props=("C10", "C07"), share_quick=("C07",) if w == 0 else (),
+          tier="thorough" if w == 1 else "quick", timeout=10800 if w == 1 else 900, mem_gb=30 if w == 1 else 14)
     # ------------------------------------------------------------------ C02 layouts, ZST, leaked guards
     OPS = ("insert", "remove", "iterate", "drain", "clone", "into_iter", "insert_grow", "retain", "shrink")
     for ty, tn, quick_ops in (("u16", "u16", (0, 6)), ("u64", "u64", (1, 4)), ("[u64; 3]", "u64x3", (0, 3, 6)), ("sym::Al32", "al32", (0, 1, 2, 6)), ("sym::Big", "big200", (0, 5, 6))):
@@ -230,7 +234,7 @@ def instances():
     # ------------------------------------------------------------------ C15 multi-key borrows
     # the documented panic of get_many_mut (Kani replaces the formatted message by a placeholder):
     # an assertion-class failure located in RawTable::get_many_mut itself, nothing else
-    DUP = [r"^assertion\|hashbrown::raw::RawTable::<[^|]*>::get_many_mut::<[^|]*>\|(This is a placeholder message|duplicate keys found)"]
+    DUP = [r"^assertion\|hashbrown::[a-z_:]*RawTable::<[^|]*>::get_many_mut::<[^|]*\|(This is a placeholder message|duplicate keys found)"]
     T("c15_table_dup_n8_k2", "c15::table_many::<8, 2>(0)", 8, props=("C15",), allow_fail=DUP, covers="some")
     T("c15_table_dup_n8_k3", "c15::table_many::<8, 3>(0)", 8, be=G8, props=("C15",), allow_fail=DUP, covers="some")
     T("c15_table_distinct_n8_k3", "c15::table_many::<8, 3>(1)", 8, be=G8, props=("C15",), covers="some")
@@ -272,42 +276,50 @@ def instances():
     T("c04_hasher_grow_nodrop_n4", "c04::hasher_panic_nodrop::<4, 8>(0b0111, 0, 1, 0)", 4, n2=8, items=3, props=("C04", "C02"), be=G8)
     T("c04_hasher_grow_nodrop_n8", "c04::hasher_panic_nodrop::<8, 16>(0b00010010, 0, 6, 1)", 8, n2=16, items=2, props=("C04", "C02"))
     T("c04_hasher_grow_drop_n8", "c04::hasher_panic_drop::<8, 16>(0b00100100, 0, 6, 0)", 8, n2=16, items=2, props=("C04", "C03"), be=G8)
-    T("c04_hasher_shrink_drop_n8", "c04::hasher_panic_drop::<8, 4>(0b00100100, 0, 0, 0)", 8, n2=4, items=2, props=("C04",), be=G8, covers="some")
-    T("c04_rehash_hook_nodrop_n8", "c04::rehash_hook_panic::<8>(3, false)", 8, items=3, be=G8, props=("C04", "C02"), timeout=1800)
-    T("c04_rehash_hook_drop_n8", "c04::rehash_hook_panic::<8>(3, true)", 8, items=3, be=G8, props=("C04", "C03"), timeout=1800)
-    T("c04_rehash_hook_nodrop_n4", "c04::rehash_hook_panic::<4>(2, false)", 4, items=2, props=("C04", "C02"), timeout=1800)
-    for (nt, ns) in ((8, 8), (8, 4), (4, 8), (8, 1)):
-        T("c04_clone_from_panic_%d_%d" % (nt, ns), "c04::clone_from_panic::<%d, %d>()" % (nt, ns), max(nt, ns), be=G8, props=("C04", "C11", "C03"), covers="some" if ns == 1 else "all")
+    T("c04_rehash_hook_nodrop_n8", "c04::rehash_hook_panic::<8>(3, false)", 8, n2=8, items=3, be=G8, props=("C04", "C02"), timeout=1800)
+    T("c04_rehash_hook_drop_n8", "c04::rehash_hook_panic::<8>(3, true)", 8, n2=8, items=3, be=G8, props=("C04", "C03"), timeout=1800)
+    T("c04_rehash_hook_nodrop_n4", "c04::rehash_hook_panic::<4>(2, false)", 4, n2=4, items=2, props=("C04", "C02"), timeout=1800, be_quick=G8)
+    for (nt, ns) in ((8, 8), (8, 4), (4, 8), (8, 1), (4, 4)):
+        big = (nt, ns) in ((8, 8), (4, 8))
+        T("c04_clone_from_panic_%d_%d" % (nt, ns), "c04::clone_from_panic::<%d, %d>()" % (nt, ns), max(nt, ns), be=G8, props=("C04", "C11", "C03"), covers="some" if ns == 1 else "all",
+          tier="thorough" if big else "quick", timeout=10800 if big else 900, mem_gb=30 if big else 14)
     for w, wn in enumerate(("clear", "drop", "drain", "into_iter", "retain", "shrink0")):
         T("c04_drop_panic_%s_n8" % wn, "c04::drop_panic::<8>(%d)" % w, 8, be=G8, props=("C04", "C03"), covers="some")
     T("c04_predicate_validity_retain_n8", "c04::predicate_time_validity::<8>(false)", 8, be=G8, props=("C04",))
-    T("c04_predicate_validity_extract_n8", "c04::predicate_time_validity::<8>(true)", 8, be=G8, props=("C04",))
+    T("c04_predicate_validity_extract_n4", "c04::predicate_time_validity::<4>(true)", 4, be=G8, props=("C04",))
+    T("c04_predicate_validity_extract_n8", "c04::predicate_time_validity::<8>(true)", 8, be=G8, props=("C04",), tier="thorough", timeout=10800, mem_gb=30)
     T("c04_replace_entry_validity_n8", "c04::replace_entry_with_validity::<8>()", 8, be=G8, props=("C04", "C14"))
     # ------------------------------------------------------------------ C07 HashSet algebra
     for op, on in enumerate(("union", "intersection", "difference", "symdiff")):
-        T("c07_%s_n4_n4" % on, "c07::algebra::<4, 4>(2, 3, %d)" % op, 4, be=G8, props=("C07",))
-        T("c07_%s_n4_n4_rev" % on, "c07::algebra::<4, 4>(3, 1, %d)" % op, 4, be=G8, props=("C07",))
+        T("c07_%s_n4_n4" % on, "c07::algebra::<4, 4>(2, 3, %d)" % op, 4, be=G8, props=("C07",), unwind=7, timeout=1500)
+        T("c07_%s_n4_n4_rev" % on, "c07::algebra::<4, 4>(3, 1, %d)" % op, 4, be=G8, props=("C07",), unwind=7, timeout=1500)
         T("c07_%s_n8_n8" % on, "c07::algebra::<8, 8>(3, 2, %d)" % op, 8, props=("C07",), be=S16 if op in (0, 1) else G8, tier="quick" if op in (0, 3) else "thorough", timeout=1800)
-    T("c07_predicates_n4_n4", "c07::predicates::<4, 4>()", 4, be=G8, props=("C07", "C11"), covers="some")
-    T("c07_predicates_n8_n4", "c07::predicates::<8, 4>()", 8, be=G8, props=("C07", "C11"), covers="some")
-    T("c07_predicates_n8_n8", "c07::predicates::<8, 8>()", 8, be=S16, props=("C07", "C11"), covers="some")
+    for w, wn in enumerate(("subset", "superset", "disjoint", "eq")):
+        T("c07_pred_%s_n4_n4" % wn, "c07::predicates::<4, 4>(%d)" % w, 4, be=G8, props=("C07", "C11"), covers="some", unwind=7, timeout=1500)
+        T("c07_pred_%s_n8_n4" % wn, "c07::predicates::<8, 4>(%d)" % w, 8, be=G8, props=("C07", "C11"), covers="some", tier="thorough", timeout=10800, mem_gb=30)
+        T("c07_pred_%s_n8_n8" % wn, "c07::predicates::<8, 8>(%d)" % w, 8, be=S16, props=("C07", "C11"), covers="some", tier="thorough", timeout=10800, mem_gb=30)
     for op, on in enumerate(("or", "and", "xor", "sub")):
-        T("c07_assign_%s_n8_n4" % on, "c07::assign_ops::<8, 4>(2, 3, %d)" % op, 8, be=G8, props=("C07",), timeout=1500)
-        T("c07_assign_%s_n8_n4_big" % on, "c07::assign_ops::<8, 4>(4, 2, %d)" % op, 8, be=G8, props=("C07",), timeout=1500, tier="quick" if op == 3 else "thorough")
+        # one element in B: a second insert would re-open every resize path (growth_left symbolic after the first)
+        T("c07_assign_%s_n8_n4" % on, "c07::assign_ops::<8, 4>(2, 1, %d)" % op, 8, be=G8, props=("C07",), timeout=1500)
+        T("c07_assign_%s_n8_n4_b3" % on, "c07::assign_ops::<8, 4>(2, 3, %d)" % op, 8, be=G8, props=("C07",), timeout=10800, tier="quick" if op in (1, 3) else "thorough", mem_gb=14 if op in (1, 3) else 40)
+        T("c07_assign_%s_n8_n4_big" % on, "c07::assign_ops::<8, 4>(4, 2, %d)" % op, 8, be=G8, props=("C07",), timeout=10800, tier="quick" if op == 3 else "thorough", mem_gb=14 if op == 3 else 40)
         T("c07_ref_%s_n4_n4" % on, "c07::ref_ops::<4, 4>(1, 1, %d)" % op, 8, n2=8, be=G8, props=("C07",), timeout=1800, tier="thorough")
     for op, on in enumerate(("insert", "replace", "take", "get_or_insert", "get_or_insert_with", "remove", "get_or_insert_with_nonequiv", "entry", "contains")):
         T("c07_elem_%s_n8" % on, "c07::elem_ops::<8, 8>(3, 0, %d)" % op, 8, items=3, be=BOTH if op in (1, 3) else G8, props=("C07",) + (("C14",) if on == "entry" else ()),
-          allow_fail=["new value is not equivalent"] if op == 6 else [])
+          allow_fail=[r"^assertion\|hashbrown::HashSet::<[^|]*>::get_or_insert_with::<[^|]*\|", r"^assertion\|hashbrown::set::HashSet::<[^|]*>::get_or_insert_with::<[^|]*\|"] if op == 6 else [],
+          tier="thorough" if on == "entry" else "quick", timeout=10800 if on == "entry" else 900, mem_gb=40 if on == "entry" else 14)
     T("c07_elem_replace_n4_full", "c07::elem_ops::<4, 8>(3, 0, 1)", 4, n2=8, items=3, be=G8, props=("C07",))
     # ------------------------------------------------------------------ C11 clone / clone_from / ==
     T("c11_clone_n8", "c11::clone_step::<8>(true)", 8, props=("C11", "C03"), be_quick=G8)
     T("c11_clone_n8_src_mut", "c11::clone_step::<8>(false)", 8, be=G8, props=("C11", "C03"))
-    T("c11_clone_n16", "c11::clone_step::<16>(true)", 16, be=G8, props=("C11",), timeout=1800)
+    T("c11_clone_n16", "c11::clone_step::<16>(true)", 16, be=G8, props=("C11",), timeout=10800, tier="thorough", mem_gb=30)
     for (nt, ns) in ((8, 8), (8, 4), (4, 8), (8, 1), (16, 8)):
-        T("c11_clone_from_%d_%d" % (nt, ns), "c11::clone_from_step::<%d, %d>()" % (nt, ns), max(nt, ns), be=G8, props=("C11", "C03"), timeout=1800)
-    T("c11_map_eq_n4_n8", "c11::map_eq::<4, 8>()", 8, be=G8, props=("C11",), covers="some")
-    T("c11_map_eq_n8_n8", "c11::map_eq::<8, 8>()", 8, be=S16, props=("C11",), covers="some")
-    T("c11_map_eq_n16_n8", "c11::map_eq::<16, 8>()", 16, be=G8, props=("C11",), covers="some", timeout=1800)
+        T("c11_clone_from_%d_%d" % (nt, ns), "c11::clone_from_step::<%d, %d>()" % (nt, ns), max(nt, ns), be=G8, props=("C11", "C03"),
+          timeout=1800 if nt < 16 else 10800, tier="quick" if nt < 16 else "thorough", mem_gb=14 if nt < 16 else 30)
+    T("c11_map_eq_n4_n4", "c11::map_eq::<4, 4>()", 4, be=G8, props=("C11",), covers="some", unwind=7, timeout=1500)
+    T("c11_map_eq_n4_n8", "c11::map_eq::<4, 8>()", 8, be=G8, props=("C11",), covers="some", tier="thorough", timeout=10800, mem_gb=30)
+    T("c11_map_eq_n8_n8", "c11::map_eq::<8, 8>()", 8, be=S16, props=("C11",), covers="some", tier="thorough", timeout=10800, mem_gb=30)
+    T("c11_map_eq_n16_n8", "c11::map_eq::<16, 8>()", 16, be=G8, props=("C11",), covers="some", timeout=14400, tier="thorough", mem_gb=40)
     # ------------------------------------------------------------------ C14 entry APIs
     T("c14_raw_entry_ro_n8", "c14::raw_entry_ro::<8>()", 8, props=("C14",))
     for form, fn_ in enumerate(("or_insert", "nocheck_insert", "from_hash_insert_hashed", "insert_with_hasher", "remove_entry", "insert_key", "and_replace", "vacant_dropped")):
@@ -334,9 +346,14 @@ def instances():
     # ------------------------------------------------------------------ C20 serde
     for w, wn in enumerate(("map", "set", "set_in_place")):
         T("c20_hint_bounded_%s" % wn, "c20::hint_bounded(%d)" % w, 8, props=("C20",), bounds="all 2^64 claimed lengths incl. None")
-    T("c20_map_entries_1", "c20::map_entries::<1>()", 4, n2=8, items=1, be=G8, props=("C20",), covers="some")
-    T("c20_map_entries_2", "c20::map_entries::<2>()", 4, n2=8, items=2, be=G8, props=("C20",), timeout=1800)
-    T("c20_map_entries_3", "c20::map_entries::<3>()", 4, n2=8, items=3, be=G8, props=("C20",), timeout=7200, tier="thorough")
+    T("c20_map_err_1_at0", "c20::map_entries::<1>(0)", 4, items=1, be=G8, props=("C20",), unwind=4)
+    T("c20_map_err_1_at1", "c20::map_entries::<1>(1)", 4, items=1, be=G8, props=("C20",), unwind=4)
+    T("c20_map_ok_1", "c20::map_entries::<1>(9)", 4, items=1, be=G8, props=("C20",), unwind=4)
+    T("c20_map_err_2_at1", "c20::map_entries::<2>(1)", 4, items=2, be=G8, props=("C20",), unwind=5, timeout=1800)
+    T("c20_map_err_2_at2", "c20::map_entries::<2>(2)", 4, items=2, be=G8, props=("C20",), unwind=5, timeout=3600, tier="thorough", mem_gb=30)
+    T("c20_map_plain_1", "c20::map_entries_plain::<1>()", 4, items=1, be=G8, props=("C20",), unwind=4)
+    T("c20_map_plain_2", "c20::map_entries_plain::<2>()", 4, items=2, be=G8, props=("C20",), unwind=5)
+    T("c20_map_plain_3", "c20::map_entries_plain::<3>()", 4, items=3, be=G8, props=("C20",), timeout=10800, tier="thorough", unwind=6, mem_gb=44)
     T("c20_set_in_place_n8_1", "c20::set_in_place::<8, 1>()", 8, be=G8, props=("C20",), covers="some")
     T("c20_set_in_place_n8_2", "c20::set_in_place::<8, 2>()", 8, be=G8, props=("C20",), covers="some", timeout=1800, tier="thorough")
     T("c20_serialize_map_n8", "c20::serialize_emits_all::<8>(false)", 8, props=("C20",))
@@ -350,7 +367,7 @@ def instances():
         "C12": ["c17_layout_all"],
         "C03": ["c04_clone_from_panic_8_4", "c11_clone_n8", "c11_clone_from_8_4", "c19_par_drain_producer_n8"],
         "C02": ["c04_hasher_grow_nodrop_n8", "c05_insert_n8", "c05_remove_n8", "c03_drop_n8", "c17_table_layout_types"],
-        "C11": ["c07_predicates_n4_n4", "c04_clone_from_panic_8_8"],
+        "C11": ["c07_pred_eq_n4_n4", "c04_clone_from_panic_8_4"],
         "C01": ["c14_map_occ_remove_n8", "c06_base_cap3"],
         "C05": ["c15_table_sloppy_n8_k2"],
         "C14": ["c04_replace_entry_validity_n8", "c07_elem_entry_n8"],
